@@ -142,10 +142,10 @@ def ensure_facts(repo=None, verbose=True):
             json.dump({"key": key, "files_hashed": nfiles, "extract_s": round(time.time() - t0, 1)}, fh)
         shutil.rmtree(out, ignore_errors=True)
         os.rename(tmp, out)
-        # evict old keys (keep the 4 most recent)
+        # evict old keys (keep the 8 most recent)
         ds = [d for d in glob.glob(os.path.join(WORK, "facts", "*")) if os.path.isdir(d)]
         ds.sort(key=lambda d: os.path.getmtime(d), reverse=True)
-        for d in ds[4:]:
+        for d in ds[8:]:
             shutil.rmtree(d, ignore_errors=True)
         if verbose:
             print("[facts] extracted %s in %.1fs" % (key, time.time() - t0), file=sys.stderr)
